@@ -6,7 +6,8 @@ from .. import common
 from ..common import rat, unrat
 
 PROP = "C03"
-RULE = ("op-sequence programs over terms / sums / numbers (+ - * / ** simplify ==, numbers on either side) and the "
+RULE = ("[== matrices: every ordered pair of zero / negligible / non-zero terms, numbers and sums; histories re-using the "
+        "same operand objects] op-sequence programs over terms / sums / numbers (+ - * / ** simplify ==, numbers on either side) and the "
         "exhaustive table of products of all Pauli strings on <=3 qubits in both orders; non-trivial: a binary step "
         "whose two operands are initial operators that are both non-constant with overlapping qubit supports, or an "
         "initial sum containing a duplicate operator string or a zero coefficient; distinct = distinct canonical JSON")
@@ -125,6 +126,14 @@ def corpus():
         P([S(), N(0, ty="int")], [st("eq", 1, 0)]),
         # FINDING eq-hash-rounding-boundary: coefficients 2e-9 apart on the two sides of a round(c*1e6) boundary
         P([S(T([[0, "X"]], Fraction(1.5e-6 - 1e-9))), S(T([[0, "X"]], Fraction(1.5e-6 + 1e-9)))], [st("eq", 0, 1)], exact=False),
+        # zero coefficients on either side of == against non-zero operands of every kind, all ordered pairs
+        _eq_matrix([T([[0, "X"]], 0), T([[1, "Z"]], 3), T([], 0, ty="int"), N(1), N(0), S(), T([], 1), S(T([[1, "Z"]], 3)),
+                    T([[0, "X"]], 3), S(T([[0, "X"]], 3), T([[1, "Z"]], 3))],
+                   [st("mul", 1, 4), st("mul", 4, 8)]),
+        # an operation, then the same operands again (like terms in two dict orders; un-simplified sum with duplicates)
+        P([T([[0, "Z"], [2, "X"]], 1), T([[2, "X"], [0, "Z"]], 2), S(T([[0, "Z"]], 1), T([[0, "Z"]], 2))],
+          [st("add", 0, 1), st("add", 0, 1), st("sub", 0, 1), st("simplify", 2), st("simplify", 2), st("eq", 6, 7),
+           st("mul", 0, 0), st("eq", 3, 4)], kind="history"),
         # indices up to 12, gap, descending dict order
         P([T([[12, "Y"], [3, "X"], [7, "Z"]], Fraction(3, 8), Fraction(-5, 8)), T([[7, "X"], [12, "Y"], [0, "Z"]], 0, 1)],
           [st("mul", 0, 1), st("mul", 1, 0), st("add", 2, 3), st("sub", 2, 3), st("pow", 0, p=5), st("pow", 1, p=4)]),
@@ -319,6 +328,125 @@ def _eq_case(rng, tier):
     return P([a, b2], [st("eq", 0, 1), st("eq", 1, 0), st("sub", 0, 1), st("sub", 1, 0), st("eq", 4, 5)], kind="eq")
 
 
+def _eq_matrix(vals, derived=(), kind="eqmatrix", skip=()):
+    """every ORDERED pair of the operands (initial values and derived registers) compared with ==, both argument orders"""
+    steps = list(derived)
+    n = len(vals) + len(steps)
+    kinds = [v["k"] for v in vals] + ["op"] * len(steps)
+    for i in range(n):
+        for j in range(n):
+            if i == j or (kinds[i] == "num" and kinds[j] == "num") or (i, j) in skip:
+                continue
+            steps.append(st("eq", i, j))
+    return P(vals, steps, kind=kind)
+
+
+def _eq_zero_case(rng, tier):
+    """zero (and negligible) coefficients on EITHER side of == against non-zero operands of every kind (term on the same /
+    another string, constant term, number, one-term / many-term / empty sum), all ordered pairs"""
+    pool = sorted(rng.sample(range(13), rng.randrange(1, 4)))
+    opsA = [[q, rng.choice(LETTERS)] for q in rng.sample(pool, rng.randrange(1, len(pool) + 1))]
+    opsB = [[q, rng.choice(LETTERS)] for q in rng.sample(pool, rng.randrange(1, len(pool) + 1))]
+    if sorted(opsB) == sorted(opsA):
+        opsB = [[opsA[0][0], LETTERS[(LETTERS.index(opsA[0][1]) + 1) % 3]]] + opsA[1:]
+    re, im = _coeff(rng, allow_zero=False)
+    re2, im2 = _coeff(rng, allow_zero=False)
+    zero_ty = rng.choice([None, "int"])
+    cands = [
+        T(opsA, 0, 0, zero_ty),                  # zero term on string A
+        T(opsB, 0),                              # zero term on string B
+        T([], 0, 0, rng.choice([None, "int"])),  # zero constant term
+        N(0, 0, rng.choice([None, "int"])),      # the number zero
+        S(),                                     # the empty sum
+        T(opsA, re, im), T(opsB, re2, im2),      # non-zero terms on both strings
+        T(list(reversed(opsA)), re, im),         # same operator, other dict order
+        T([], re, im), N(re, im),                # non-zero constant term / number (equal to each other)
+        S(T(opsA, re, im)), S(T(opsB, re2, im2), T(opsA, re, im)), S(T([], re, im)),
+    ]
+    k = len(cands) if tier == "thorough" else 8
+    idx = sorted(rng.sample(range(len(cands)), k))
+    if not any(i < 3 for i in idx):
+        idx[0] = rng.randrange(0, 3)
+    vals = [cands[i] for i in sorted(set(idx))]
+    derived = []
+    ti = [i for i, v in enumerate(vals) if v["k"] == "term"]
+    zi = [i for i, v in enumerate(vals) if v["k"] == "num" and v["c"] == [0, 0]]
+    if ti and zi and rng.random() < 0.7:        # a zero produced BY the arithmetic: term * 0, 0 * term
+        derived.append(st("mul", rng.choice(ti), zi[0]))
+        derived.append(st("mul", zi[0], rng.choice(ti)))
+    return _eq_matrix(vals, derived)
+
+
+def _eq_negligible_case(rng):
+    """a coefficient the library treats as zero (1e-9) on either side of == against non-zero operands"""
+    q = rng.randrange(0, 4)
+    a, b = rng.sample(LETTERS, 2)
+    eps = Fraction(1e-9) * rng.choice([1, -1])
+    re, im = _coeff(rng, allow_zero=False)
+    vals = [T([[q, a]], eps), T([[q, b]], re, im), T([], re, im), N(re, im), T([], eps), S(T([[q, b]], re, im)), N(0), S()]
+    c = _eq_matrix(vals)
+    c["exact"] = False
+    return c
+
+
+class _Prog:
+    """builder: registers are the initial values followed by one register per step"""
+
+    def __init__(self, vals):
+        self.vals, self.steps = list(vals), []
+
+    def __call__(self, op, a, b=None, **kw):
+        self.steps.append(st(op, a, b, **kw))
+        return len(self.vals) + len(self.steps) - 1
+
+    def case(self, kind):
+        return P(self.vals, self.steps, kind=kind)
+
+
+def _history_case(rng, tier):
+    """multi-step histories on the SAME objects: an operation is evaluated, then the very same operands are used again
+    (operands changed in place, results cached on an operand, temporaries) – every repeat must denote the same matrix;
+    results that must merge like terms are compared (==) with the merged operator written down directly"""
+    pool = sorted(rng.sample(range(13), rng.randrange(1, 4)))
+    ops = [[q, rng.choice(LETTERS)] for q in rng.sample(pool, rng.randrange(1, len(pool) + 1))]
+    re, im = _coeff(rng, allow_zero=False)
+    re2, im2 = _coeff(rng, allow_zero=False)
+    if (re + re2, im + im2) == (0, 0) or (re - re2, im - im2) == (0, 0):
+        re2 += Fraction(1, 8)
+        if (re + re2, im + im2) == (0, 0) or (re - re2, im - im2) == (0, 0):
+            re2 += Fraction(1, 8)
+    a = T(ops, re, im)
+    b = T(list(reversed(ops)), re2, im2)          # like term, other dict order
+    c = _term(rng, pool, allow_zero=False)
+    raw = S(a, c, b, dict(a))                      # un-simplified sum holding duplicates
+    merged = T(sorted(ops), re + re2, im + im2)    # a + b written down directly
+    diffab = T(sorted(ops), re - re2, im - im2)    # a - b
+    A, B, C, RAW, MERGED, DIFF = range(6)
+    g = _Prog([a, b, c, raw, merged, diffab])
+    r = rng.random()
+    if r < 0.35:
+        s1 = g("add", A, B); s2 = g("add", A, B); d1 = g("sub", A, B); d2 = g("sub", B, A)
+        g("mul", A, B); g("eq", A, A); s3 = g("add", B, A); g("pow", A, p=2)
+        g("eq", s1, s2); g("eq", s1, s3); g("eq", s1, MERGED); g("eq", MERGED, s2); g("eq", d1, DIFF); g("eq", DIFF, d1)
+        g("add", d1, d2)
+    elif r < 0.6:
+        x1 = g("simplify", RAW); x2 = g("simplify", RAW); g("eq", x1, x2); g("add", RAW, RAW); g("mul", RAW, A)
+        x3 = g("simplify", RAW); g("sub", RAW, x1); p1 = g("pow", RAW, p=2); p2 = g("pow", RAW, p=2); g("eq", p1, p2)
+        g("eq", x3, x1); m = g("add", A, B); g("eq", m, MERGED)
+    elif r < 0.8:
+        m1 = g("mul", A, C); m2 = g("mul", C, A); m3 = g("mul", A, C); g("eq", m1, m3)
+        ac = g("add", m1, m2); g("sub", m1, m2); s1 = g("add", A, C); s2 = g("add", A, C); g("eq", s1, s2)
+        p1 = g("pow", A, p=3); p2 = g("pow", A, p=3); g("eq", p1, p2)
+        # anticommutator / commutator written both ways: like terms meet in different dict orders
+        ca = g("add", m2, m1); g("eq", ac, ca); g("eq", ca, ac)
+        bc = g("mul", B, C); abc = g("add", m1, bc); mc = g("mul", MERGED, C); g("eq", abc, mc); g("eq", mc, abc)
+    else:
+        # the same object on both sides, and a result fed back together with its own operand
+        d = g("add", A, A); z = g("sub", A, A); g("mul", RAW, RAW); t = g("add", RAW, A); g("add", d, A); g("mul", t, RAW)
+        zz = g("sub", t, t); g("eq", t, t); g("add", RAW, RAW); g("eq", z, zz); g("eq", zz, z)
+    return g.case("history")
+
+
 def _malformed(rng):
     pool = [0, 1, 2]
     a = _term(rng, pool)
@@ -352,6 +480,12 @@ def generate(rng, tier):
         cases.append(_eq_case(rng, tier))
     for _ in range(100 if big else 30):
         cases.append(_malformed(rng))
+    for _ in range(60 if big else 14):
+        cases.append(_eq_zero_case(rng, tier))
+    for _ in range(20 if big else 6):
+        cases.append(_eq_negligible_case(rng))
+    for _ in range(200 if big else 40):
+        cases.append(_history_case(rng, tier))
     return cases
 
 
@@ -641,6 +775,7 @@ def oracle(case, out):
     if len(qubits) > 7:
         return None  # not generated; the dense oracle would need > 128 x 128 matrices
     mats = {}
+    lib_simplified = set()  # registers holding a sum RETURNED by + - * / ** simplify(): simplified operators by construction
 
     def M(i):
         if i not in mats:
@@ -650,6 +785,7 @@ def oracle(case, out):
     def kind(i):
         return regs[i]["k"] if isinstance(regs[i], dict) else "bool"
 
+    eq_seen = {}
     for i, s in enumerate(c["steps"]):
         if i >= len(out["results"]):
             break
@@ -675,7 +811,7 @@ def oracle(case, out):
             if not isinstance(r, bool):
                 return ("eq-not-bool:" + sig, f"{desc}: == returned {r!r}")
             va, vb = regs[s["a"]], regs[s["b"]]
-            if not (_is_simplified(va) and _is_simplified(vb)):
+            if not ((s["a"] in lib_simplified or _is_simplified(va)) and (s["b"] in lib_simplified or _is_simplified(vb))):
                 continue
             ta, tb = _coeff_table(va), _coeff_table(vb)
             keys = set(ta) | set(tb)
@@ -691,6 +827,12 @@ def oracle(case, out):
                 return ("eq-false-on-equal:" + sig, f"{desc}: == is False although the denoted matrices are equal")
             if diff > 1e-8 + 1.1e-5 * big and r is True:
                 return ("eq-true-on-different:" + sig, f"{desc}: == is True although coefficients differ by {diff:.3g}")
+            # a == b iff b == a (matrix equality is symmetric); only outside the tolerance band, where the verdict is fixed
+            if diff <= 0.9e-8 or diff > 1e-8 + 1.1e-5 * big:
+                other = eq_seen.get((s["b"], s["a"]))
+                if other is not None and other != r:
+                    return ("eq-asymmetric:" + sig, f"{desc}: a == b is {r} but b == a is {other}")
+                eq_seen[(s["a"], s["b"])] = r
             continue
         if not (isinstance(r, dict) and r.get("k") in ("term", "sum")):
             return ("result-kind:" + sig, f"{desc}: result {r!r} is not a PauliTerm / PauliSum")
@@ -709,6 +851,8 @@ def oracle(case, out):
         else:
             want = M(s["a"])
         mats[len(regs) - 1] = got
+        if r["k"] == "sum":
+            lib_simplified.add(len(regs) - 1)
         err = float(np.max(np.abs(got - want))) if got.size else 0.0
         if err > TOL * max(1.0, float(np.max(np.abs(want))) if want.size else 1.0):
             return (sig, f"{desc}: result {common.canon(r)[:200]} denotes a matrix that differs from the matrix "
